@@ -1,4 +1,199 @@
-import ArrModel.C18
+import ArrProofs.Lemmas.C18Generic
+import ArrProofs.Lemmas.C18Display
+import ArrProofs.Lemmas.C18Text
+/-!
+# C18 — array literals and text forms carry shape and elements faithfully
+
+Property theorems only (helper lemmas: `ArrProofs/Lemmas/C18*.lean`).  Model under test: `ArrModel/C18.lean`
+(`arrayGeneric`, `parseShape`, `finish`, `display`/`buildString`, `showTuple2/3`, `showList`, `parseTuple2/3`,
+`parseList`), a character-level transcription of `src/macros/{create,helpers}.rs`, `display.rs`, `tuple2.rs`,
+`tuple3.rs`, `collection/mod.rs` after the repairs of `/verif/fixes/C18-*.diff`.
+
+`Valid s es` (Lemmas/C18Nest): a regular nested literal of shape `s`, every axis ≥ 1, whose leaves print (Debug)
+as `es` in reading order, each leaf text `Plain`: non-empty, free of `[ ] , " #`, not starting with a blank.
+`debugVec s es` is the text `format!("{:?}", vec![lit,])` the macro starts from (`nest`: `[` items joined by `", "` `]`,
+recursively); that `nest` is the real Debug text is checked by the tie on every compiled literal.
+All theorems hold for every rank and every axis length (induction on the nesting depth).
+-/
 namespace ArrModel.C18
-theorem placeholder_c18 : nest [] [] = [] := rfl
+open ArrModel
+
+/-- **literal macro, shape and elements** (`array!(T, <nested brackets>)`, generic arm): the per-depth
+replace / count / truncate loop of `array_parse_shape!` returns exactly the written shape, and the element texts come
+out in reading order. -/
+theorem parseShape_debug (s : List Nat) (es : List Str) (hs : s ≠ []) (h : Valid s es) :
+    arrayGeneric (debugVec s es) = .ok (s, es) := by
+  rw [debugVec_eq h]
+  exact arrayGeneric_mid h _ (Or.inl ⟨rfl, by cases s with | nil => exact absurd rfl hs | cons _ _ => simp⟩)
+
+/-- **`array_parse_shape!` alone**, on the pre-processed text with any number `a` of opening and `b ≥ rank-1` closing
+brackets around the middle text (this is the form every typed front end reaches after blanking the elements). -/
+theorem parseShape_tight (s : List Nat) (es : List Str) (h : Valid s es) (a b : Nat) (hb : s.length ≤ b + 1) :
+    parseShape s.length (rep '[' a ++ mid sepT s es ++ rep ']' b) = .ok s :=
+  parseShapeLoop_mid h a b hb
+
+/-- **multi-argument form** `array!(T, x₁, …, xₙ)` (text `[x₁, …, xₙ]`): a flat array of the `n` elements — the same
+result as `Array::flat`. -/
+theorem literal_args (n : Nat) (es : List Str) (h : Valid [n] es) :
+    arrayGeneric (nest [n] es) = .ok ((Arr.flat es).shape, (Arr.flat es).elems) := by
+  have := arrayGeneric_mid h 1 (Or.inr ⟨rfl, rfl⟩)
+  rw [nest_eq_mid [n] h.pos]
+  have hl : es.length = n := by simpa using h.len
+  simpa [Arr.flat, hl] using this
+
+/-- **`array_flat!(T, x₁, …, xₙ)`** expands to `array!(T, vec![x₁, …, xₙ])`, whose Debug text is `debugVec [n]`:
+shape `[n]`, the elements in order — what `Array::flat` builds. -/
+theorem flat_macro (n : Nat) (es : List Str) (h : Valid [n] es) :
+    arrayGeneric (debugVec [n] es) = .ok ((Arr.flat es).shape, (Arr.flat es).elems) := by
+  have hl : es.length = n := by simpa using h.len
+  simpa [Arr.flat, hl] using parseShape_debug [n] es (by simp) h
+
+/-- **the array that is built**: when the element parser inverts the element printer on the written values, the literal
+is the array of shape `s` holding those values in reading order (`.parse().unwrap()` never fires, `Array::new`
+accepts). -/
+theorem literal_array {α} (pr : α → Str) (parse : Str → Option α) (s : List Nat) (vals : List α) (hs : s ≠ [])
+    (h : Valid s (vals.map pr)) (hinv : ∀ v ∈ vals, parse (pr v) = some v) :
+    finish parse (arrayGeneric (debugVec s (vals.map pr))) = .ok ⟨vals, s⟩ := by
+  rw [parseShape_debug s _ hs h]
+  have hm : Res.mapM' (fun t => Res.unwrap (parse t)) (vals.map pr) = .ok vals := by
+    clear h
+    induction vals with
+    | nil => rfl
+    | cons v r ih =>
+      have h1 := hinv v (by simp)
+      have h2 := ih (fun w hw => hinv w (by simp [hw]))
+      simp only [Res.mapM', List.map_cons, Res.sequence, h1, Res.unwrap] at h2 ⊢
+      rw [h2]; rfl
+  have hl : s.prod = vals.length := by simpa using h.len.symm
+  simp [finish, hm, Arr.new, hl]
+
+/-- **plain text form**: `format!("{}", a)` / `format!("{:.p}", a)` of a non-empty array of rank ≥ 1 is the canonical
+nesting of its rendered elements: brackets nest according to the shape, elements in reading order
+(`pr` is the element printer with the requested precision). -/
+theorem display_eq_nest {α} (pr : α → Str) (a : Arr α) (hwf : a.WF) (hs : a.shape ≠ []) (hpos : ∀ d ∈ a.shape, 1 ≤ d) :
+    display pr false a = nest a.shape (a.elems.map pr) :=
+  buildString_eq_nest pr 1 a.shape a.elems hs hpos hwf
+
+/-- **display nesting, by parsing back**: the literal parser, applied to the plain text form wrapped the way
+`vec![…]` wraps a literal, returns the array's shape and its rendered elements in order. -/
+theorem display_nesting {α} (pr : α → Str) (a : Arr α) (hwf : a.WF) (hs : a.shape ≠ [])
+    (hv : Valid a.shape (a.elems.map pr)) :
+    arrayGeneric ('[' :: display pr false a ++ [']']) = .ok (a.shape, a.elems.map pr) := by
+  rw [display_eq_nest pr a hwf hs hv.pos]
+  have : '[' :: nest a.shape (a.elems.map pr) ++ [']'] = debugVec a.shape (a.elems.map pr) := by
+    have ht : (a.elems.map pr).take a.shape.prod = a.elems.map pr := List.take_of_length_le (Nat.le_of_eq hv.len)
+    simp only [debugVec, nest, chunks, List.map_cons, List.map_nil, joinWith_single, ht]
+  rw [this]
+  exact parseShape_debug _ _ hs hv
+
+/-- **one-element arrays** (the arm the pinned tree prints as `[x]` whatever the rank): the repaired `build_string`
+prints one bracket pair per axis around the element rendered with the requested precision, in both forms. -/
+theorem display_single {α} (pr : α → Str) (alt : Bool) (r : Nat) (x : α) :
+    display pr alt ⟨[x], List.replicate (r + 1) 1⟩ = rep '[' (r + 1) ++ pr x ++ rep ']' (r + 1) :=
+  buildString_single pr alt 1 r x
+
+/-- the empty array prints as `[]` -/
+theorem display_empty {α} (pr : α → Str) (alt : Bool) (shape : List Nat) : display pr alt ⟨[], shape⟩ = ['[', ']'] := by
+  unfold display
+  match shape with
+  | [] => rfl
+  | [_] => rfl
+  | _ :: _ :: _ => rfl
+
+/-- **pretty form**: `format!("{:#}", a)` differs from the plain form only in blanks and line breaks (any array, any
+precision). -/
+theorem pretty_eq_plain_mod_ws {α} (pr : α → Str) (a : Arr α) :
+    strip (display pr true a) = strip (display pr false a) :=
+  strip_buildString pr 1 a.shape a.elems
+
+/-- **pairs survive their text form**: `Tuple2::from_str(Tuple2(x, y).to_string()) = Ok(Tuple2(x, y))` when the component
+parsers invert the component printers and the component texts are free of `, ( ) [ ]`. -/
+theorem tuple2_roundtrip {α β} (sa : α → Str) (sb : β → Str) (pa : Str → Option α) (pb : Str → Option β) (x : α) (y : β)
+    (hx : pa (sa x) = some x) (hy : pb (sb y) = some y) (fx : SepFree (sa x)) (fy : SepFree (sb y)) :
+    parseTuple2 pa pb (showTuple2 sa sb (x, y)) = some (x, y) := by
+  have hshow : showTuple2 sa sb (x, y) = '(' :: (joinWith [',', ' '] [sa x, sb y] ++ [')']) := by
+    simp [showTuple2, joinWith_cons_cons]
+  have hf : ∀ t ∈ [sa x, sb y], SepFree t := by
+    intro t ht; simp at ht; rcases ht with rfl | rfl <;> assumption
+  unfold parseTuple2
+  rw [hshow, tupleParts_show _ hf, splitChar_joinWith _ (by simp) (fun t ht => (hf t ht).comma)]
+  simp [hx, hy]
+
+/-- **triples survive their text form** -/
+theorem tuple3_roundtrip {α β γ} (sa : α → Str) (sb : β → Str) (sc : γ → Str)
+    (pa : Str → Option α) (pb : Str → Option β) (pc : Str → Option γ) (x : α) (y : β) (z : γ)
+    (hx : pa (sa x) = some x) (hy : pb (sb y) = some y) (hz : pc (sc z) = some z)
+    (fx : SepFree (sa x)) (fy : SepFree (sb y)) (fz : SepFree (sc z)) :
+    parseTuple3 pa pb pc (showTuple3 sa sb sc (x, y, z)) = some (x, y, z) := by
+  have hshow : showTuple3 sa sb sc (x, y, z) = '(' :: (joinWith [',', ' '] [sa x, sb y, sc z] ++ [')']) := by
+    simp [showTuple3, joinWith_cons_cons]
+  have hf : ∀ t ∈ [sa x, sb y, sc z], SepFree t := by
+    intro t ht; simp at ht; rcases ht with rfl | rfl | rfl <;> assumption
+  unfold parseTuple3
+  rw [hshow, tupleParts_show _ hf, splitChar_joinWith _ (by simp) (fun t ht => (hf t ht).comma)]
+  simp [hx, hy, hz]
+
+/-- **lists survive their text form** (repaired `List::from_str`): for every list, the empty one included, whose items
+print as non-empty texts free of `, ( ) [ ]` and are recovered by the item parser. -/
+theorem list_roundtrip {α} (sa : α → Str) (pa : Str → Option α) (xs : List α)
+    (h : ∀ x ∈ xs, pa (sa x) = some x ∧ SepFree (sa x) ∧ sa x ≠ []) :
+    parseList pa (showList sa xs) = some xs := by
+  have hf : ∀ t ∈ xs.map sa, SepFree t := by
+    intro t ht; obtain ⟨x, hx, rfl⟩ := List.mem_map.1 ht; exact (h x hx).2.1
+  have hne : ∀ t ∈ xs.map sa, t ≠ [] := by
+    intro t ht; obtain ⟨x, hx, rfl⟩ := List.mem_map.1 ht; exact (h x hx).2.2
+  have hshow : showList sa xs = '[' :: (joinWith [',', ' '] (xs.map sa) ++ [']']) := by simp [showList]
+  unfold parseList
+  rw [hshow]
+  simp only [parseList_show_body _ hf]
+  cases hxs : xs with
+  | nil => simp
+  | cons x r =>
+    have hnn : (joinWith [','] ((x :: r).map sa)).isEmpty = false := by
+      cases hj : joinWith [','] ((x :: r).map sa) with
+      | nil => have := joinWith_eq_nil hj (hxs ▸ hne); simp at this
+      | cons _ _ => rfl
+    rw [hnn]
+    simp only [Bool.false_eq_true, if_false]
+    rw [splitChar_joinWith _ (by simp) (fun t ht => (hxs ▸ hf) t ht |>.comma)]
+    exact mapM_option_map sa pa (x :: r) (fun y hy => (h y (hxs ▸ hy)).1)
+
+/-- the pinned `List::from_str` cannot read what `Display` prints: a witness of the defect repaired by
+`fixes/C18-list-fromstr.diff` (the item parser here is the identity on texts, as for `List<String>`: the pinned code
+returns the items `"[1"`, `"2]"`; for `List<i32>` it returns an error). -/
+theorem list_pinned_witness :
+    parseListPinned (fun t => some t) (showList (fun t : Str => t) [['1'], ['2']]) = some [['[', '1'], ['2', ']']]
+    ∧ parseList (fun t => some t) (showList (fun t : Str => t) [['1'], ['2']]) = some [['1'], ['2']] := by
+  decide
+
+/-! ## non-vacuity -/
+
+section examples
+private def d (n : Nat) : Str := (toString n).toList
+
+/-- a rank-3 literal with a unit axis in the middle satisfies `Valid` -/
+example : Valid [2, 1, 2] [['1'], ['-', '2'], ['3', '.', '5'], ['t', 'r', 'u', 'e']] :=
+  ⟨by decide, by decide, by
+    intro e he
+    simp only [List.mem_cons, List.not_mem_nil, or_false] at he
+    rcases he with rfl | rfl | rfl | rfl <;> exact ⟨by decide, by decide, by decide⟩⟩
+
+example : debugVec [2, 1, 2] [['1'], ['-', '2'], ['3', '.', '5'], ['t', 'r', 'u', 'e']]
+    = "[[[[1, -2]], [[3.5, true]]]]".toList := by decide
+
+example : arrayGeneric "[[[[1, -2]], [[3.5, true]]]]".toList
+    = .ok ([2, 1, 2], [['1'], ['-', '2'], ['3', '.', '5'], ['t', 'r', 'u', 'e']]) := by decide
+
+/-- the hypotheses matter: a comma inside an element text changes the shape the generic arm computes -/
+example : arrayGeneric (debugVec [2] [['a', ',', 'b'], ['c']]) = .ok ([3], [['a'], ['b'], ['c']]) := by decide
+
+example : display (fun (n : Nat) => [Char.ofNat (48 + n)]) true ⟨[1, 2, 3, 4], [2, 2]⟩ = "[[1, 2],\n [3, 4]]".toList := by
+  decide
+
+example : SepFree ['-', '2', '.', '5'] := by
+  intro c hc; simp only [List.mem_cons, List.not_mem_nil, or_false] at hc
+  rcases hc with rfl | rfl | rfl | rfl <;> decide
+example : parseTuple2 (fun t => some t) (fun t => some t) "(1, 2.5)".toList = some ("1".toList, "2.5".toList) := by decide
+end examples
+
 end ArrModel.C18
